@@ -54,7 +54,10 @@ CHECKS["C05"] = dict(
 
 TABLE_NOTE = (
     "Model: OdfModel/Rle.lean (element_cached.py incl. the position-map arithmetic) + OdfModel/Table.lean (table.py / row.py), spec OdfModel/Grid.lean. "
-    "NOT in the model: the per-object caches of wrapper objects (_indexes, the _rmap of a cached Row object), row/column styles, spans, and the order of "
+    "The OBJECT layer is OdfModel/TableObj.lean (C02): the table's cache of Row wrappers (_indexes['_tmap']), each wrapper's own _rmap and its cache of Cell "
+    "wrappers; there a cached wrapper is identified with the element at its key (every operation that moves row elements empties the cache in the same step, "
+    "as the code does), an identification checked on the live objects after every step by the correspondence of C02. NOT in the model: the cache of Column "
+    "wrappers, wrappers kept by the caller across later edits (C08 / C10), row/column styles, spans, and the order of "
     "column and row elements among the table's children - these are decided by the correspondence / lxml oracles of the check at every step. The history "
     "theorems exclude one state: rows without any declared column (only reachable by deleting the last column of a table that has rows), where the property "
     "does not say what a later operation should declare; histories are cut there on both sides. The proved alphabet holds 13 operations incl. the bulk setters set_cells and "
@@ -74,10 +77,19 @@ CHECKS["C01"] = dict(
 CHECKS["C02"] = dict(
     text="Proved: every vault edit keeps the stored position map equal to the one a fresh parse computes, find_odf_idx on a coherent map returns the run that "
     "covers the position, hence after every history the live table IS the fresh parse of its own XML (reparse_id, history_fresh) and sizes are the sums of "
-    "repeats. Decided by correspondence only (partial): caches of wrapper objects - live vs Element.from_tag(serialize()) vs independent lxml expansion "
-    "after every step with cache-filling reads forced first, plus save+reload.",
-    note=TABLE_NOTE,
-    technique="Lean 4 invariant proof (position maps) + three-way differential check live / fresh parse / independent reader after every step",
+    "repeats. OBJECT LAYER (the caches the property is anchored in): in OdfModel/TableObj.lean a read is served from whatever an earlier read cached "
+    "(_indexes['_tmap'], the wrapper's own _rmap, its cached cells), an edit of an unrepeated row goes through the cached wrapper in place, caches are emptied "
+    "exactly where the code empties them; proved: every one of the 13 operations made through coherent caches does to the XML what it does without caches "
+    "(cached_step_refines) and leaves every cached wrapper describing the element at its key (cached_step_keeps_caches); get_value / get_row_values served from "
+    "the caches answer what the fresh parse answers (cached_get_value_fresh, cached_row_values_fresh); hence for EVERY history of mutations interleaved with "
+    "cache-filling reads every answer and the XML are those of the fresh parse at every step (cached_history_fresh). Counter-example theorem for known finding "
+    "C02-F3 (repeated setter of a live row). Correspondence: ~10 000 steps per quick run where the live _indexes['_tmap'] (keys, each wrapper's _rmap, its "
+    "cached cells, identity of the elements held) is compared with the model after every step; live vs Element.from_tag(serialize()) vs independent lxml "
+    "expansion after every step of the C01 histories and of a wide alphabet (rstrip, optimize_width, transpose, spans, extend_rows, set_column_cells, live-row "
+    "edits, office-style merged cells), plus save+reload.",
+    note=TABLE_NOTE + "Known finding C02-F3 is reported at every run. If the private attributes read by the cache walk are renamed, the walk reports 'caches not "
+    "observable' and only answers are compared.",
+    technique="Lean 4 refinement + invariant proof (object layer with wrapper caches refines the XML-level model; position maps; induction over histories with reads) + differential check of the live caches and live / fresh parse / independent reader after every step",
     design="5/C02",
 )
 CHECKS["C07"] = dict(
@@ -280,14 +292,17 @@ CHECKS["C12"] = dict(
     "value, None deletes, booleans use the ODF lexical form, with the single exception that the strings 'true' / 'false' read back as booleans "
     "(propdef_roundtrip, propdef_identity); over the table DUMPED from the live registry at every run (110 tags / 89 classes): the registry is a function, "
     "every tag dispatches to its class, every class is what its own tag dispatches to, an unknown tag falls back to Element, the unregistered exported "
-    "subclasses are exactly the known three. Decided by the harness: for every class of the live registry, 40 (quick) type-directed argument combinations "
+    "subclasses are exactly the known three; over the table regenerated from the constructors' AST: no constructor argument that has a same-named attribute "
+    "property is dropped or stored under another name (ctor_params_stored; it found BackgroundImage(repeat/opacity/filter), fix C12-F7). Decided by the harness: for every class of the live registry, 40 (quick) type-directed argument combinations "
     "(None / bool / 0 vs None / XML-special strings / quotes / datetimes / Elements), arguments exposed by the properties, well-formed serialisation, same class "
-    "and same canonical XML after re-parse, properties equal after re-parse, clone; every access path {from_tag, children, get_elements, xpath, parent, clone, "
+    "and same canonical XML after re-parse, every generic and every plain-valued Python property equal after re-parse and on the clone; every access path {from_tag, children, get_elements, xpath, parent, clone, "
     "get_element} on sample documents and on a fragment with unconventional namespace prefixes.",
-    note="The 89 constructors are not modelled: their agreement with the properties is decided by the oracle only (the class table of DESIGN.md was not "
-    "transcribed). The registry table is a dump of the running library, not a static translation. Family-specific arguments of Style, arguments stored in child "
+    note="Constructors: Gen/Ctors.lean is REGENERATED from the AST of every constructor at every run (143 (class, parameter) pairs: every parameter that has a "
+    "generic attribute property of the same name) and ctor_params_stored re-decides that each is stored in that property - directly, through a method of the "
+    "class or by forwarding to a base constructor that stores it; what the constructors do with their other parameters (children, text, computed attributes) "
+    "is decided by the oracle only. The registry table is a dump of the running library, not a static translation. Family-specific arguments of Style, arguments stored in child "
     "elements and arguments given as None are not compared with a property. Known finding C14-F3 ('true' / 'false' as strings) is reported at every run.",
-    technique="Lean 4 theorems (case analysis on the generic property model, decide over a table dumped from the live registry) + type-directed constructor / re-parse oracle",
+    technique="Lean 4 theorems (case analysis on the generic property model, decide over a table dumped from the live registry and over a table translated from the constructors' AST) + type-directed constructor / re-parse oracle",
     design="5/C12",
 )
 
@@ -296,15 +311,18 @@ CHECKS["C15"] = dict(
     text="PARTIAL, said plainly. A getter modelled as a pure function is read-only by definition, so a Lean statement about most entry points would be empty: the "
     "decision for them is exploration. Proved (package layer, where the code is NOT pure because reads fill caches): Document.get_part / Container.get_part / "
     "reading the manifest keep the content of every name whatever they cache, answer the content of the name, give the same answer the second time, keep the "
-    "listing of the parts, for every state and every sequence of reads (C15 theorems over OdfModel/Package.lean); save keeps every parsed part (C11). Explored: "
+    "listing of the parts, for every state and every sequence of reads (C15 theorems over OdfModel/Package.lean); save keeps every parsed part (C11). Proved "
+    "(table object layer, OdfModel/TableObj.lean, where reads create and keep Row / Cell wrappers): any sequence of get_value / get_cell / get_row / "
+    "get_row_values leaves the XML and the position maps untouched and answers what a table that caches nothing answers; asking twice gives the same answer "
+    "(table_reads_keep_document, table_value_twice_same, table_row_twice_same). Explored: "
     "every property and every method whose name says it only reports (get_*, is_*, search*, traverse*, as_*, to_*, show_*, match, text_at, serialize, str, clone, "
     "remove_spans / remove_links, exports, replace without replacement incl. formatted=True, ranged table reads) of Document, Body, Meta, Styles, Content, "
     "Manifest, Table, Row, Cell, Paragraph, Header, Span, List, Frame, Note, TOC, Link, DrawPage on samples, templates and generated spreadsheets with "
     "repetitions, in random order, twice: serialisation of the five XML parts and bytes of the others before / after each call, second answer = first.",
     note="Entry points are enumerated by introspection against reviewed name patterns; documented get-or-create accessors (get_variable_decls, "
     "get_user_field_decls: 'Created if not found') are excluded. Documents with a table of more than 4000 cells are skipped (the property bounds table sizes). "
-    "A part that was only loaded lazily in between is compared with its source. The Lean theorems cover the package-layer reads only.",
-    technique="exploration of the read-only API by introspection (before/after serialisation) + Lean 4 theorems for the cache-filling reads of the package layer",
+    "A part that was only loaded lazily in between is compared with its source. The Lean theorems cover the package-layer reads and the cache-filling reads of the table object layer (tied to the code by C02's cache walk).",
+    technique="exploration of the read-only API by introspection (before/after serialisation) + Lean 4 theorems for the cache-filling reads of the package layer and of the table object layer",
     design="5/C15",
 )
 
